@@ -796,6 +796,10 @@ func c05GenScn(t *rapid.T, o c05GenOpt, excludedCase func(id string)) *c05Scn {
 			return c05Step{}, false
 		}
 		d := rapid.SampledFrom([]time.Duration{time.Millisecond, time.Second, 4900 * time.Millisecond, 9900 * time.Millisecond}).Draw(t, label)
+		if !(s.Stack == c05StackPort53 && o.KnownDL) && rapid.IntRange(0, 7).Draw(t, label+"_edge") == 0 {
+			// at and around the expiry: the model says what is due
+			return c05Step{Op: c05OpSleep, D: relayHalfCloseTimeout + rapid.SampledFrom([]time.Duration{-time.Millisecond, -1, 0, 1, time.Millisecond, time.Minute}).Draw(t, label+"_edgeD")}, true
+		}
 		if s.Stack == c05StackPort53 && o.KnownDL {
 			if d > port53Budget/2 {
 				d = port53Budget / 2
@@ -882,14 +886,14 @@ func c05GenScn(t *rapid.T, o c05GenOpt, excludedCase func(id string)) *c05Scn {
 			s.TailAfterFin = true
 		}
 		for _, sz := range c05Cuts(t, label+"_tail", tailN, nil) {
-			if st, ok := grace(label + "_grace"); ok && st.D < budget {
-				budget -= st.D
+			if st, ok := grace(label + "_grace"); ok && (st.D < budget || st.D >= relayHalfCloseTimeout-time.Millisecond) {
+				budget -= st.D // an edge pause (at/after the expiry) uses the budget up
 				*dst = append(*dst, st)
 			}
 			*dst = append(*dst, c05Step{Op: c05OpWrite, N: sz})
 		}
 		if !never {
-			if st, ok := grace(label + "_graceFin"); ok && st.D < budget {
+			if st, ok := grace(label + "_graceFin"); ok && (st.D < budget || st.D >= relayHalfCloseTimeout-time.Millisecond) {
 				*dst = append(*dst, st)
 			}
 			*dst = append(*dst, c05Step{Op: c05OpCloseWrite})
@@ -973,7 +977,13 @@ func c05GenScn(t *rapid.T, o c05GenOpt, excludedCase func(id string)) *c05Scn {
 // peers (client and upstream)
 // ---------------------------------------------------------------------------
 
+type c05WriteEv struct {
+	at  time.Time
+	end int // cumulative bytes of the payload covered once this write is done
+}
+
 type c05Peer struct {
+	wr        []c05WriteEv
 	finAtomic bool
 	name      string
 	conn      net.Conn
@@ -1058,6 +1068,9 @@ func (p *c05Peer) script(mem bool, stop, relayStarted <-chan struct{}, done chan
 		case c05OpWrite:
 			var n int
 			var err error
+			p.mu.Lock()
+			p.wr = append(p.wr, c05WriteEv{at: time.Now(), end: p.sent + st.N})
+			p.mu.Unlock()
 			if mc, ok := p.conn.(*c05MemConn); ok && p.finAtomic && i+1 < len(p.steps) && p.steps[i+1].Op == c05OpCloseWrite {
 				p.mu.Lock()
 				p.finAt, p.finDone = time.Now(), true
@@ -1464,22 +1477,63 @@ func c05Judge(r *c05Result, o c05GenOpt, exact bool) c05Verdict {
 			return failf("relay began %v after accept, detection window allows %v", got, bound)
 		}
 	}
-	// healthy connection: everything is delivered in both directions
-	if len(r.srv.recv) != len(s.C2U) {
-		return failf("client->upstream truncated: %s", c05Diverge(r.srv.recv, s.C2U))
+	// The grace model (virtual clock only). Once one direction has ended — its source's
+	// FIN seen by the relay at T1 = max(FIN, relay start) — the statement promises the
+	// opposite direction only "the relay's bounded grace period": bytes the other side
+	// writes strictly before D = T1 + grace must arrive; what it writes (or its FIN) at
+	// or after D may be cut, and the relay then ends at exactly D. Everything else is
+	// the healthy-connection oracle.
+	maxT := func(a, b time.Time) time.Time {
+		if a.After(b) {
+			return a
+		}
+		return b
 	}
-	if len(r.cli.recv) != len(s.U2C) {
-		return failf("upstream->client truncated: %s", c05Diverge(r.cli.recv, s.U2C))
+	reqC, reqS := len(s.C2U), len(s.U2C) // bytes of the client's / the upstream's stream that must arrive
+	lateC, lateS := false, false         // that side acted at/after D (or never closed)
+	var graceEnd time.Time
+	if exact {
+		tc, ts := maxT(r.cli.finAt, d.startAt), maxT(r.srv.finAt, d.startAt)
+		before := func(p *c05Peer, lim time.Time) int {
+			n := 0
+			for _, ev := range p.wr {
+				if ev.at.Before(lim) {
+					n = ev.end
+				}
+			}
+			return n
+		}
+		switch {
+		case r.cli.finDone && (!r.srv.finDone || !tc.After(ts)):
+			graceEnd = tc.Add(relayHalfCloseTimeout)
+			if !r.srv.finDone || !ts.Before(graceEnd) {
+				lateS, reqS = true, before(r.srv, graceEnd)
+			}
+		case r.srv.finDone:
+			graceEnd = ts.Add(relayHalfCloseTimeout)
+			if !r.cli.finDone || !tc.Before(graceEnd) {
+				lateC, reqC = true, before(r.cli, graceEnd)
+			}
+		}
+		if lateC || lateS {
+			cls("grace_expired_on_slow_side")
+		}
 	}
-	if r.cli.werr != nil || r.srv.werr != nil {
+	if len(r.srv.recv) < reqC {
+		return failf("client->upstream truncated (%d bytes were due): %s", reqC, c05Diverge(r.srv.recv, s.C2U))
+	}
+	if len(r.cli.recv) < reqS {
+		return failf("upstream->client truncated (%d bytes were due): %s", reqS, c05Diverge(r.cli.recv, s.U2C))
+	}
+	if (r.cli.werr != nil && !lateC) || (r.srv.werr != nil && !lateS) {
 		return failf("a peer's write failed on a healthy connection")
 	}
-	if r.cli.aborted != "" || r.srv.aborted != "" {
+	if (r.cli.aborted != "" && !lateC) || (r.srv.aborted != "" && !lateS) {
 		return failf("a peer could not finish its script")
 	}
 	// half-close is passed on as end of stream (not as an error)
 	never := s.Close == c05CloseClientNever || s.Close == c05CloseServerNever
-	if s.Close != c05CloseServerNever && s.Close != c05CloseClientNever {
+	if !exact && !never {
 		if !r.srv.eof {
 			return failf("upstream did not observe end of stream after the client shut down its write side (err %v)", r.srv.rerr)
 		}
@@ -1488,11 +1542,11 @@ func c05Judge(r *c05Result, o c05GenOpt, exact bool) c05Verdict {
 		}
 	}
 	if !s.HandleConn {
-		if got := d.up.Load(); got != int64(len(s.C2U)) {
-			return failf("upload recorder counted %d bytes, %d were relayed", got, len(s.C2U))
+		if got := d.up.Load(); got != int64(len(r.srv.recv)) {
+			return failf("upload recorder counted %d bytes, %d were relayed", got, len(r.srv.recv))
 		}
-		if got := d.down.Load(); got != int64(len(s.U2C)) {
-			return failf("download recorder counted %d bytes, %d were relayed", got, len(s.U2C))
+		if got := d.down.Load(); got != int64(len(r.cli.recv)) {
+			return failf("download recorder counted %d bytes, %d were relayed", got, len(r.cli.recv))
 		}
 	}
 	if s.HandleConn && s.Mem {
@@ -1504,45 +1558,44 @@ func c05Judge(r *c05Result, o c05GenOpt, exact bool) c05Verdict {
 		}
 	}
 	if exact {
-		maxT := func(a, b time.Time) time.Time {
-			if a.After(b) {
-				return a
-			}
-			return b
-		}
-		// end of stream reaches the other side at the instant it is possible
-		if r.cli.finDone && r.srv.eof {
+		// a FIN inside the model reaches the other side, as end of stream, at the instant
+		// that is possible; a side that is cut by the grace expiry sees its stream end then.
+		if r.cli.finDone && !lateC {
 			want := maxT(r.cli.finAt, d.startAt)
-			if !r.srv.eofAt.Equal(want) {
-				return failf("upstream saw the client's end of stream at +%v, expected +%v", r.srv.eofAt.Sub(r.t0), want.Sub(r.t0))
+			if !r.srv.eof || !r.srv.eofAt.Equal(want) {
+				return failf("upstream saw the client's end of stream at +%v (eof=%v err=%v), expected +%v", r.srv.eofAt.Sub(r.t0), r.srv.eof, r.srv.rerr, want.Sub(r.t0))
 			}
 		}
-		if r.srv.finDone && r.cli.eof && !(s.Wrapped && o.KnownCW) {
+		if r.srv.finDone && !lateS && !(s.Wrapped && o.KnownCW) {
 			want := maxT(r.srv.finAt, d.startAt)
-			if !r.cli.eofAt.Equal(want) {
-				return failf("client saw the upstream's end of stream at +%v, expected +%v", r.cli.eofAt.Sub(r.t0), want.Sub(r.t0))
+			if !r.cli.eof || !r.cli.eofAt.Equal(want) {
+				return failf("client saw the upstream's end of stream at +%v (eof=%v err=%v), expected +%v", r.cli.eofAt.Sub(r.t0), r.cli.eof, r.cli.rerr, want.Sub(r.t0))
 			}
+		}
+		endOf := func(p *c05Peer) time.Time {
+			if p.eof {
+				return p.eofAt
+			}
+			return p.rerrAt
+		}
+		if lateC && !endOf(r.srv).Equal(graceEnd) {
+			return failf("the client did not finish inside the grace period that ended at +%v, but the upstream's read side ended at +%v", graceEnd.Sub(r.t0), endOf(r.srv).Sub(r.t0))
+		}
+		if lateS && !endOf(r.cli).Equal(graceEnd) && !(s.Wrapped && o.KnownCW) {
+			return failf("the upstream did not finish inside the grace period that ended at +%v, but the client's read side ended at +%v", graceEnd.Sub(r.t0), endOf(r.cli).Sub(r.t0))
 		}
 		// the half-close grace period is the only bounded wait
-		switch s.Close {
-		case c05CloseClientNever:
-			want := maxT(r.srv.finAt, d.startAt).Add(relayHalfCloseTimeout)
-			if !d.endAt.Equal(want) {
-				return failf("relay ended at +%v; upstream half-closed at +%v and the client never closed: expected the grace period to end at +%v", d.endAt.Sub(r.t0), r.srv.finAt.Sub(r.t0), want.Sub(r.t0))
+		if lateC || lateS {
+			if !d.endAt.Equal(graceEnd) {
+				return failf("relay ended at +%v; one side half-closed and the other did not finish in time: expected the grace period to end at +%v", d.endAt.Sub(r.t0), graceEnd.Sub(r.t0))
 			}
-		case c05CloseServerNever:
-			want := maxT(r.cli.finAt, d.startAt).Add(relayHalfCloseTimeout)
-			if !d.endAt.Equal(want) {
-				return failf("relay ended at +%v; client half-closed at +%v and the upstream never closed: expected the grace period to end at +%v", d.endAt.Sub(r.t0), r.cli.finAt.Sub(r.t0), want.Sub(r.t0))
-			}
-		default:
+		} else {
 			last := maxT(maxT(r.cli.finAt, r.srv.finAt), d.startAt)
 			if !d.endAt.Equal(last) {
 				return failf("relay ended at +%v, both sides had closed by +%v", d.endAt.Sub(r.t0), last.Sub(r.t0))
 			}
 		}
 	}
-	_ = never
 	tailAfterFin := s.TailAfterFin
 	if s.HeldPrefix && (d.stackKind == "bufioConn" || d.stackKind == "prefixedConn" || d.stackKind == "ConnSniffer" || s.HandleConn) {
 		cls("held_prefix")
